@@ -45,7 +45,8 @@ def rand_param(rng, allow=None):
         return ty, uns, lenenc_str(b), "bytes:" + b.hex(), ("str" if asstr and rng.random() < 0.5 else "bytes"), b.hex()
     if ty == 10:
         y, m, d = progs.rand_date(rng)
-        if y == 0: y = 1
+        if y == 0:
+            y = 1; d = min(d, progs.dim(y, m))
         form = rng.choice([0, 4, 4, 4])
         if form == 0:
             return ty, uns, b"\x00", "date:", "none", None
@@ -53,7 +54,8 @@ def rand_param(rng, allow=None):
         return ty, uns, b"\x04" + raw, "date:" + raw.hex(), "date", "%d:%d:%d" % (y, m, d)
     if ty in (12, 7):
         y, m, d = progs.rand_date(rng)
-        if y == 0: y = 1
+        if y == 0:
+            y = 1; d = min(d, progs.dim(y, m))
         h, mi, s, us = rng.randint(0, 23), rng.randint(0, 59), rng.randint(0, 59), rng.choice([1, 999999, rng.randint(1, 999999)])
         form = rng.choice([0, 4, 7, 11, 11])
         if form == 0:
